@@ -56,6 +56,8 @@ type Node struct {
 	Supported  map[string][]string
 	AuthClass  string
 	AuthSteps  int // number of AUTH_CHALLENGE rounds before AUTH_SUCCESS
+	// SystemIntercept, if set, sees every QUERY before the node's own system-table logic; true = handled.
+	SystemIntercept func(sc *ServerConn, req *Req) bool
 	Handler    Handler
 	cluster    *Cluster
 	mu         sync.Mutex
@@ -451,6 +453,9 @@ func (sc *ServerConn) handleFrame(h cqlref.Header, raw, body []byte) {
 	case cqlref.OpQuery:
 		if !sc.ready {
 			sc.bad(raw, "QUERY before the handshake completed")
+		}
+		if n.SystemIntercept != nil && n.SystemIntercept(sc, req) {
+			return
 		}
 		if n.systemQuery(sc, req) {
 			return
